@@ -8,15 +8,629 @@ import SLV.Refine.C10Lemmas
 import SLV.Model.Fuse
 import SLV.Props.C09
 import Mathlib.Algebra.Order.Ring.Abs
+import Mathlib.Algebra.BigOperators.Field
 
 namespace SLV
 open Scalar
+open SLV.Props.C09 (WF)
 
 variable {f : Fmt} {n : Nat}
 
 theorem XQ.eps_lt (f : Fmt) : f.eps < 1 / 16 := by
   cases f <;> norm_num [Fmt.eps, Fmt.mant]
 
-example : True := trivial
+/-! ### guards -/
+
+/-- value-level `is_dogmatic()` = `ulps_eq!(u, 0)` : `|u| ≤ ε` -/
+def GDog (f : Fmt) (u : ℚ) : Prop := |u| ≤ f.eps
+/-- value-level `is_vacuous()` = `ulps_eq!(u, 1)` : `1-2ε ≤ u ≤ 1+4ε` -/
+def GVac (f : Fmt) (u : ℚ) : Prop := 1 - 2 * f.eps ≤ u ∧ u ≤ 1 + 4 * f.eps
+
+instance (u : ℚ) : Decidable (GDog f u) := by unfold GDog; infer_instance
+instance (u : ℚ) : Decidable (GVac f u) := by unfold GVac; infer_instance
+
+@[simp] theorem Simplex.isDogmatic_lift (b : Tab (XQ f) n) (u : ℚ) :
+    (⟨b, XQ.fin u⟩ : Simplex (XQ f) n).isDogmatic = decide (GDog f u) := by
+  simp [Simplex.isDogmatic, GDog]
+@[simp] theorem Simplex.isVacuous_lift (b : Tab (XQ f) n) (u : ℚ) :
+    (⟨b, XQ.fin u⟩ : Simplex (XQ f) n).isVacuous = decide (GVac f u) := by
+  simp [Simplex.isVacuous, GVac]
+@[simp] theorem Opinion.isDogmatic_lift (b a : Tab (XQ f) n) (u : ℚ) :
+    (⟨b, XQ.fin u, a⟩ : Opinion (XQ f) n).isDogmatic = decide (GDog f u) := by
+  simp [Opinion.isDogmatic, GDog]
+@[simp] theorem Opinion.isVacuous_lift (b a : Tab (XQ f) n) (u : ℚ) :
+    (⟨b, XQ.fin u, a⟩ : Opinion (XQ f) n).isVacuous = decide (GVac f u) := by
+  simp [Opinion.isVacuous, GVac]
+
+theorem GDog_zero : GDog f 0 := by simpa [GDog] using (XQ.eps_pos f).le
+theorem GVac_one : GVac f 1 := by
+  have := XQ.eps_pos f; constructor <;> linarith
+theorem not_GVac_zero : ¬ GVac f 0 := by
+  have := XQ.eps_lt f; rintro ⟨h, _⟩; linarith
+theorem not_GDog_one : ¬ GDog f 1 := by
+  have := XQ.eps_lt f; unfold GDog; rw [abs_one]; linarith
+
+theorem GDog_iff {u : ℚ} (h0 : 0 ≤ u) : GDog f u ↔ u ≤ f.eps := by
+  unfold GDog; rw [abs_of_nonneg h0]
+theorem GVac_iff {u : ℚ} (h1 : u ≤ 1) : GVac f u ↔ 1 - 2 * f.eps ≤ u := by
+  have := XQ.eps_pos f
+  unfold GVac; constructor
+  · exact fun h => h.1
+  · exact fun h => ⟨h, by linarith⟩
+
+/-- a guard-dogmatic value in `[0,1]` is not guard-vacuous -/
+theorem GDog.not_GVac {u : ℚ} (h : GDog f u) : ¬ GVac f u := by
+  have := XQ.eps_lt f
+  rintro ⟨h1, _⟩
+  have := (abs_le.mp h).2
+  linarith
+
+/-- `u` is outside the two tolerance bands `(0, ε]` and `[1-2ε, 1)` -/
+def Plain (f : Fmt) (u : ℚ) : Prop := u = 0 ∨ u = 1 ∨ (f.eps < u ∧ u < 1 - 2 * f.eps)
+
+theorem Plain.GDog_iff {u : ℚ} (h : Plain f u) : GDog f u ↔ u = 0 := by
+  have he := XQ.eps_pos f
+  have := XQ.eps_lt f
+  constructor
+  · intro hd
+    rcases h with h | h | ⟨h, _⟩
+    · exact h
+    · subst h; exact absurd hd not_GDog_one
+    · exfalso; have := (abs_le.mp hd).2; linarith
+  · rintro rfl; exact GDog_zero
+
+theorem Plain.GVac_iff {u : ℚ} (h : Plain f u) : GVac f u ↔ u = 1 := by
+  have he := XQ.eps_pos f
+  have := XQ.eps_lt f
+  constructor
+  · rintro ⟨h1, h2⟩
+    rcases h with h | h | ⟨_, h⟩
+    · subst h; linarith
+    · exact h
+    · linarith
+  · rintro rfl; exact GVac_one
+
+/-! ### well-formed simplexes -/
+
+/-- well-formed rational simplex -/
+structure SWF (b : Fin n → ℚ) (u : ℚ) : Prop where
+  hb : ∀ i, 0 ≤ b i
+  hu : 0 ≤ u
+  hs : ∑ i, b i + u = 1
+
+theorem _root_.SLV.Props.C09.WF.swf {b a : Fin n → ℚ} {u : ℚ} (h : WF b u a) : SWF b u :=
+  ⟨h.hb, h.hu, h.hs⟩
+
+theorem SWF.u_le_one {b : Fin n → ℚ} {u : ℚ} (h : SWF b u) : u ≤ 1 := by
+  have := Finset.sum_nonneg (fun i (_ : i ∈ Finset.univ) => h.hb i)
+  linarith [h.hs]
+
+theorem SWF.sum_b {b : Fin n → ℚ} {u : ℚ} (h : SWF b u) : ∑ i, b i = 1 - u := by
+  linarith [h.hs]
+
+theorem SWF.b_le {b : Fin n → ℚ} {u : ℚ} (h : SWF b u) (i : Fin n) : b i ≤ 1 - u := by
+  have := Finset.single_le_sum (f := b) (fun j _ => h.hb j) (Finset.mem_univ i)
+  linarith [h.hs]
+
+/-- a well-formed simplex with `u = 1` has all masses zero -/
+theorem SWF.b_eq_zero {b : Fin n → ℚ} (h : SWF b 1) (i : Fin n) : b i = 0 :=
+  le_antisymm (by simpa using h.b_le i) (h.hb i)
+
+theorem SWF.toWF {b a : Fin n → ℚ} {u : ℚ} (h : SWF b u) (ha0 : ∀ i, 0 ≤ a i) (ha : ∑ i, a i = 1) :
+    WF b u a := ⟨h.hb, h.hu, h.hs, ha0, ha⟩
+
+theorem SWF.vacuous : SWF (fun _ : Fin n => (0 : ℚ)) 1 := ⟨fun _ => le_refl _, zero_le_one, by simp⟩
+
+/-! ### `Simplex::normalized` -/
+
+theorem normalized_liftT (g : Fin n → ℚ) (u : ℚ) (hs : ∑ i, g i + u ≠ 0) :
+    Simplex.normalized (liftT g : Tab (XQ f) n) (XQ.fin u)
+      = ⟨liftT (fun i => g i / (∑ i, g i + u)), XQ.fin (u / (∑ i, g i + u))⟩ := by
+  unfold Simplex.normalized
+  simp only [sumIter_liftT, XQ.add_fin, XQ.div_fin _ _ hs]
+  rw [liftT_map g _ (fun q => q / (∑ i, g i + u)) (fun q => XQ.div_fin _ _ hs)]
+
+/-- a table whose entries sum with `u` to exactly one is returned unchanged -/
+theorem normalized_liftT_one (g : Fin n → ℚ) (u : ℚ) (hs : ∑ i, g i + u = 1) :
+    Simplex.normalized (liftT g : Tab (XQ f) n) (XQ.fin u) = ⟨liftT g, XQ.fin u⟩ := by
+  rw [normalized_liftT g u (by rw [hs]; exact one_ne_zero), hs]
+  simp
+
+/-! ### closed forms of the belief part -/
+
+namespace FuseQ
+
+/-- both operands guard-dogmatic: normalised arithmetic mean; the normaliser is `(2 - u1 - u2)/2` -/
+def dogB (b1 : Fin n → ℚ) (u1 : ℚ) (b2 : Fin n → ℚ) (u2 : ℚ) (i : Fin n) : ℚ :=
+  ((b1 i + b2 i) / 2) / ((2 - u1 - u2) / 2)
+
+/-- aleatory / epistemic cumulative fusion, formula arm -/
+def acmB (b1 : Fin n → ℚ) (u1 : ℚ) (b2 : Fin n → ℚ) (u2 : ℚ) (i : Fin n) : ℚ :=
+  (b1 i * u2 + b2 i * u1) / (u1 + u2 - u1 * u2)
+def acmU (u1 u2 : ℚ) : ℚ := u1 * u2 / (u1 + u2 - u1 * u2)
+
+/-- averaging fusion, formula arm -/
+def avgB (b1 : Fin n → ℚ) (u1 : ℚ) (b2 : Fin n → ℚ) (u2 : ℚ) (i : Fin n) : ℚ :=
+  (b1 i * u2 + b2 i * u1) / (u1 + u2)
+def avgU (u1 u2 : ℚ) : ℚ := 2 * u1 * u2 / (u1 + u2)
+
+/-- weighted fusion, formula arm -/
+def wghB (b1 : Fin n → ℚ) (u1 : ℚ) (b2 : Fin n → ℚ) (u2 : ℚ) (i : Fin n) : ℚ :=
+  (b1 i * (1 - u1) * u2 + b2 i * (1 - u2) * u1) / (u2 * (1 - u1) + u1 * (1 - u2))
+def wghU (u1 u2 : ℚ) : ℚ := ((1 - u1) + (1 - u2)) * u1 * u2 / (u2 * (1 - u1) + u1 * (1 - u2))
+
+/-- the guard ladder of `compute_simlex` on rational data (`ε = f.eps`) -/
+def simplexQ (f : Fmt) (op : FuseOp) (b1 : Fin n → ℚ) (u1 : ℚ) (b2 : Fin n → ℚ) (u2 : ℚ) :
+    (Fin n → ℚ) × ℚ :=
+  if GDog f u1 ∧ GDog f u2 then (dogB b1 u1 b2 u2, 0)
+  else match op with
+    | .acm | .ecm =>
+      if GVac f u1 ∧ GVac f u2 then (fun _ => 0, 1)
+      else if GVac f u1 ∨ GDog f u2 then (b2, u2)
+      else if GVac f u2 ∨ GDog f u1 then (b1, u1)
+      else (acmB b1 u1 b2 u2, acmU u1 u2)
+    | .avg =>
+      if GDog f u1 then (b1, u1)
+      else if GDog f u2 then (b2, u2)
+      else (avgB b1 u1 b2 u2, avgU u1 u2)
+    | .wgh =>
+      if GVac f u1 ∧ GVac f u2 then (fun _ => 0, 1)
+      else if GVac f u1 ∨ GDog f u2 then (b2, u2)
+      else if GVac f u2 ∨ GDog f u1 then (b1, u1)
+      else (wghB b1 u1 b2 u2, wghU u1 u2)
+
+end FuseQ
+open FuseQ
+
+/-! ### the formula arms: the normaliser is exactly one -/
+
+theorem acm_temp_pos {u1 u2 : ℚ} (h1 : 0 < u1) (h1' : u1 ≤ 1) (h2 : 0 ≤ u2) :
+    0 < u1 + u2 - u1 * u2 := by nlinarith [mul_nonneg h2 (sub_nonneg.mpr h1')]
+
+theorem wgh_temp_pos {u1 u2 : ℚ} (h1 : u1 < 1) (h1' : 0 ≤ u1) (h2 : 0 < u2) (h2' : u2 ≤ 1) :
+    0 < u2 * (1 - u1) + u1 * (1 - u2) := by
+  nlinarith [mul_pos h2 (sub_pos.mpr h1), mul_nonneg h1' (sub_nonneg.mpr h2')]
+
+theorem acm_sum {b1 b2 : Fin n → ℚ} {u1 u2 : ℚ} (h1 : SWF b1 u1) (h2 : SWF b2 u2)
+    (ht : u1 + u2 - u1 * u2 ≠ 0) : ∑ i, acmB b1 u1 b2 u2 i + acmU u1 u2 = 1 := by
+  unfold acmB acmU
+  rw [← Finset.sum_div, Finset.sum_add_distrib, ← Finset.sum_mul, ← Finset.sum_mul, h1.sum_b, h2.sum_b,
+    ← add_div, div_eq_one_iff_eq ht]
+  ring
+
+theorem avg_sum {b1 b2 : Fin n → ℚ} {u1 u2 : ℚ} (h1 : SWF b1 u1) (h2 : SWF b2 u2)
+    (ht : u1 + u2 ≠ 0) : ∑ i, avgB b1 u1 b2 u2 i + avgU u1 u2 = 1 := by
+  unfold avgB avgU
+  rw [← Finset.sum_div, Finset.sum_add_distrib, ← Finset.sum_mul, ← Finset.sum_mul, h1.sum_b, h2.sum_b,
+    ← add_div, div_eq_one_iff_eq ht]
+  ring
+
+theorem wgh_sum {b1 b2 : Fin n → ℚ} {u1 u2 : ℚ} (h1 : SWF b1 u1) (h2 : SWF b2 u2)
+    (ht : u2 * (1 - u1) + u1 * (1 - u2) ≠ 0) : ∑ i, wghB b1 u1 b2 u2 i + wghU u1 u2 = 1 := by
+  unfold wghB wghU
+  rw [← Finset.sum_div, Finset.sum_add_distrib, ← Finset.sum_mul, ← Finset.sum_mul, ← Finset.sum_mul,
+    ← Finset.sum_mul, h1.sum_b, h2.sum_b, ← add_div, div_eq_one_iff_eq ht]
+  ring
+
+theorem dog_sum {b1 b2 : Fin n → ℚ} {u1 u2 : ℚ} (h1 : SWF b1 u1) (h2 : SWF b2 u2) :
+    ∑ i, (b1 i + b2 i) / 2 + 0 = (2 - u1 - u2) / 2 := by
+  rw [← Finset.sum_div, Finset.sum_add_distrib, h1.sum_b, h2.sum_b]; ring
+
+/-- `compute_simlex`, both operands guard-dogmatic (every operator): normalised mean.
+    For exactly dogmatic operands the normaliser is 1. -/
+theorem computeSimplex_both_dog (op : FuseOp) {b1 b2 : Fin n → ℚ} {u1 u2 : ℚ} (h1 : SWF b1 u1)
+    (h2 : SWF b2 u2) (d1 : GDog f u1) (d2 : GDog f u2) :
+    computeSimplex op (⟨liftT b1, XQ.fin u1⟩ : Simplex (XQ f) n) ⟨liftT b2, XQ.fin u2⟩
+      = ⟨liftT (dogB b1 u1 b2 u2), XQ.fin 0⟩ := by
+  have he := XQ.eps_lt f
+  have hs := dog_sum h1 h2
+  have hpos : (2 - u1 - u2) / 2 ≠ 0 := by
+    have := (abs_le.mp d1).2; have := (abs_le.mp d2).2
+    apply ne_of_gt; linarith
+  unfold computeSimplex
+  simp only [Simplex.isDogmatic_lift, d1, d2, decide_true, Bool.and_self, if_true]
+  have e : (Vector.ofFn fun i : Fin n => ((liftT b1 : Tab (XQ f) n)[i] + (liftT b2 : Tab (XQ f) n)[i]) / two)
+      = liftT (fun i => (b1 i + b2 i) / 2) := by
+    apply Vector.ext; intro i hi; simp [liftT, XQ.div_fin _ _ (two_ne_zero)]
+  rw [e, XQ.zero_def, normalized_liftT _ _ (by rw [hs]; exact hpos), hs]
+  simp only [zero_div]
+  rfl
+
+theorem pos_of_not_GDog {u : ℚ} (h0 : 0 ≤ u) (h : ¬ GDog f u) : f.eps < u := by
+  rw [GDog_iff h0] at h; exact not_le.mp h
+
+theorem lt_of_not_GVac {u : ℚ} (h1 : u ≤ 1) (h : ¬ GVac f u) : u < 1 - 2 * f.eps := by
+  rw [GVac_iff h1] at h; exact not_le.mp h
+
+/-- `compute_simlex`, ACm / ECm formula arm (neither operand guard-vacuous nor guard-dogmatic):
+    the raw formula; the normaliser `Σb + u` is exactly 1 -/
+theorem computeSimplex_acm_formula {op : FuseOp} (hop : op = .acm ∨ op = .ecm) {b1 b2 : Fin n → ℚ}
+    {u1 u2 : ℚ} (h1 : SWF b1 u1) (h2 : SWF b2 u2) (nd1 : ¬ GDog f u1) (nd2 : ¬ GDog f u2)
+    (nv1 : ¬ GVac f u1) (nv2 : ¬ GVac f u2) :
+    computeSimplex op (⟨liftT b1, XQ.fin u1⟩ : Simplex (XQ f) n) ⟨liftT b2, XQ.fin u2⟩
+      = ⟨liftT (acmB b1 u1 b2 u2), XQ.fin (acmU u1 u2)⟩ := by
+  have he := XQ.eps_pos f
+  have p1 := pos_of_not_GDog h1.hu nd1
+  have ht : u1 + u2 - u1 * u2 ≠ 0 := ne_of_gt (acm_temp_pos (by linarith) h1.u_le_one h2.hu)
+  have e : (Vector.ofFn fun i : Fin n =>
+      XQ.fin ((b1 i * u2 + b2 i * u1) / (u1 + u2 - u1 * u2)) : Tab (XQ f) n) = liftT (acmB b1 u1 b2 u2) := rfl
+  rcases hop with rfl | rfl <;>
+  · unfold computeSimplex
+    simp only [Simplex.isDogmatic_lift, Simplex.isVacuous_lift, nd1, nd2, nv1, nv2, decide_false,
+      Bool.and_false, Bool.or_false, Bool.false_eq_true, if_false, liftT_getElem, XQ.add_fin,
+      XQ.sub_fin, XQ.mul_fin, XQ.div_fin _ _ ht, e]
+    exact normalized_liftT_one _ _ (acm_sum h1 h2 ht)
+
+/-- `compute_simlex`, Avg formula arm (neither operand guard-dogmatic; vacuous operands included) -/
+theorem computeSimplex_avg_formula {b1 b2 : Fin n → ℚ}
+    {u1 u2 : ℚ} (h1 : SWF b1 u1) (h2 : SWF b2 u2) (nd1 : ¬ GDog f u1) (nd2 : ¬ GDog f u2) :
+    computeSimplex .avg (⟨liftT b1, XQ.fin u1⟩ : Simplex (XQ f) n) ⟨liftT b2, XQ.fin u2⟩
+      = ⟨liftT (avgB b1 u1 b2 u2), XQ.fin (avgU u1 u2)⟩ := by
+  have he := XQ.eps_pos f
+  have p1 := pos_of_not_GDog h1.hu nd1
+  have ht : u1 + u2 ≠ 0 := ne_of_gt (by linarith [h2.hu])
+  have e : (Vector.ofFn fun i : Fin n =>
+      XQ.fin ((b1 i * u2 + b2 i * u1) / (u1 + u2)) : Tab (XQ f) n) = liftT (avgB b1 u1 b2 u2) := rfl
+  unfold computeSimplex
+  simp only [Simplex.isDogmatic_lift, nd1, nd2, decide_false,
+    Bool.and_false, Bool.false_eq_true, if_false, liftT_getElem, XQ.add_fin, XQ.two_def,
+    XQ.mul_fin, XQ.div_fin _ _ ht, e]
+  exact normalized_liftT_one _ _ (avg_sum h1 h2 ht)
+
+/-- `compute_simlex`, Wgh formula arm (neither operand guard-vacuous nor guard-dogmatic) -/
+theorem computeSimplex_wgh_formula {b1 b2 : Fin n → ℚ}
+    {u1 u2 : ℚ} (h1 : SWF b1 u1) (h2 : SWF b2 u2) (nd1 : ¬ GDog f u1) (nd2 : ¬ GDog f u2)
+    (nv1 : ¬ GVac f u1) (nv2 : ¬ GVac f u2) :
+    computeSimplex .wgh (⟨liftT b1, XQ.fin u1⟩ : Simplex (XQ f) n) ⟨liftT b2, XQ.fin u2⟩
+      = ⟨liftT (wghB b1 u1 b2 u2), XQ.fin (wghU u1 u2)⟩ := by
+  have he := XQ.eps_pos f
+  have p2 := pos_of_not_GDog h2.hu nd2
+  have l1 := lt_of_not_GVac h1.u_le_one nv1
+  have ht : u2 * (1 - u1) + u1 * (1 - u2) ≠ 0 :=
+    ne_of_gt (wgh_temp_pos (by linarith) h1.hu (by linarith) h2.u_le_one)
+  have e : (Vector.ofFn fun i : Fin n =>
+      XQ.fin ((b1 i * (1 - u1) * u2 + b2 i * (1 - u2) * u1) / (u2 * (1 - u1) + u1 * (1 - u2))) :
+        Tab (XQ f) n) = liftT (wghB b1 u1 b2 u2) := rfl
+  unfold computeSimplex
+  simp only [Simplex.isDogmatic_lift, Simplex.isVacuous_lift, nd1, nd2, nv1, nv2, decide_false,
+    Bool.and_false, Bool.or_false, Bool.false_eq_true, if_false, liftT_getElem, XQ.add_fin,
+    XQ.sub_fin, XQ.one_def, XQ.mul_fin, XQ.div_fin _ _ ht, e]
+  exact normalized_liftT_one _ _ (wgh_sum h1 h2 ht)
+
+/-! clone arms (no well-formedness needed; `bl`, `br` are arbitrary tables) -/
+
+/-- ACm / ECm / Wgh, both guard-vacuous: `Simplex::vacuous()` -/
+theorem computeSimplex_both_vac {op : FuseOp} (hop : op ≠ .avg) (bl br : Tab (XQ f) n) {u1 u2 : ℚ}
+    (v1 : GVac f u1) (v2 : GVac f u2) :
+    computeSimplex op (⟨bl, XQ.fin u1⟩ : Simplex (XQ f) n) ⟨br, XQ.fin u2⟩
+      = ⟨liftT (fun _ => (0 : ℚ)), XQ.fin 1⟩ := by
+  have nd1 : ¬ GDog f u1 := fun d => d.not_GVac v1
+  cases op <;> first | exact absurd rfl hop | skip
+  all_goals
+    unfold computeSimplex
+    simp only [Simplex.isDogmatic_lift, Simplex.isVacuous_lift, nd1, v1, v2, decide_false, decide_true,
+      Bool.false_and, Bool.and_self, Bool.false_eq_true, if_false, if_true]
+    exact vacuous_eq_liftT n
+
+/-- ACm / ECm / Wgh, left guard-vacuous or right guard-dogmatic (and not both dogmatic / both vacuous):
+    the right operand -/
+theorem computeSimplex_right {op : FuseOp} (hop : op ≠ .avg) (bl br : Tab (XQ f) n) {u1 u2 : ℚ}
+    (hnd : ¬ (GDog f u1 ∧ GDog f u2)) (hnv : ¬ (GVac f u1 ∧ GVac f u2)) (h : GVac f u1 ∨ GDog f u2) :
+    computeSimplex op (⟨bl, XQ.fin u1⟩ : Simplex (XQ f) n) ⟨br, XQ.fin u2⟩ = ⟨br, XQ.fin u2⟩ := by
+  cases op <;> first | exact absurd rfl hop | skip
+  all_goals
+    unfold computeSimplex
+    simp only [Simplex.isDogmatic_lift, Simplex.isVacuous_lift, ← Bool.decide_and, ← Bool.decide_or,
+      hnd, hnv, h, decide_false, decide_true, Bool.false_eq_true, if_false, if_true]
+
+/-- ACm / ECm / Wgh, right guard-vacuous or left guard-dogmatic (previous arms not taken):
+    the left operand -/
+theorem computeSimplex_left {op : FuseOp} (hop : op ≠ .avg) (bl br : Tab (XQ f) n) {u1 u2 : ℚ}
+    (hnd : ¬ (GDog f u1 ∧ GDog f u2)) (hnv : ¬ (GVac f u1 ∧ GVac f u2))
+    (hnr : ¬ (GVac f u1 ∨ GDog f u2)) (h : GVac f u2 ∨ GDog f u1) :
+    computeSimplex op (⟨bl, XQ.fin u1⟩ : Simplex (XQ f) n) ⟨br, XQ.fin u2⟩ = ⟨bl, XQ.fin u1⟩ := by
+  cases op <;> first | exact absurd rfl hop | skip
+  all_goals
+    unfold computeSimplex
+    simp only [Simplex.isDogmatic_lift, Simplex.isVacuous_lift, ← Bool.decide_and, ← Bool.decide_or,
+      hnd, hnv, hnr, h, decide_false, decide_true, Bool.false_eq_true, if_false, if_true]
+
+/-- Avg, left guard-dogmatic (right not): the left operand -/
+theorem computeSimplex_avg_left (bl br : Tab (XQ f) n) {u1 u2 : ℚ}
+    (d1 : GDog f u1) (nd2 : ¬ GDog f u2) :
+    computeSimplex .avg (⟨bl, XQ.fin u1⟩ : Simplex (XQ f) n) ⟨br, XQ.fin u2⟩ = ⟨bl, XQ.fin u1⟩ := by
+  unfold computeSimplex
+  simp only [Simplex.isDogmatic_lift, d1, nd2, decide_false, decide_true, Bool.and_false,
+    Bool.false_eq_true, if_false, if_true]
+
+/-- Avg, right guard-dogmatic (left not): the right operand -/
+theorem computeSimplex_avg_right (bl br : Tab (XQ f) n) {u1 u2 : ℚ}
+    (nd1 : ¬ GDog f u1) (d2 : GDog f u2) :
+    computeSimplex .avg (⟨bl, XQ.fin u1⟩ : Simplex (XQ f) n) ⟨br, XQ.fin u2⟩ = ⟨br, XQ.fin u2⟩ := by
+  unfold computeSimplex
+  simp only [Simplex.isDogmatic_lift, d2, nd1, decide_false, decide_true, Bool.false_and,
+    Bool.false_eq_true, if_false, if_true]
+
+/-- `compute_simlex` on well-formed lifted operands, all arms at once: the rational guard ladder
+    `FuseQ.simplexQ`.  In particular every component of the result is finite. -/
+theorem computeSimplex_lift (op : FuseOp) {b1 b2 : Fin n → ℚ} {u1 u2 : ℚ} (h1 : SWF b1 u1)
+    (h2 : SWF b2 u2) :
+    computeSimplex op (⟨liftT b1, XQ.fin u1⟩ : Simplex (XQ f) n) ⟨liftT b2, XQ.fin u2⟩
+      = ⟨liftT (simplexQ f op b1 u1 b2 u2).1, XQ.fin (simplexQ f op b1 u1 b2 u2).2⟩ := by
+  unfold simplexQ
+  by_cases hd : GDog f u1 ∧ GDog f u2
+  · rw [if_pos hd]; exact computeSimplex_both_dog op h1 h2 hd.1 hd.2
+  rw [if_neg hd]
+  have cum : ∀ op : FuseOp, op ≠ .avg → ∀ (F : (Fin n → ℚ) × ℚ),
+      (¬ GDog f u1 → ¬ GDog f u2 → ¬ GVac f u1 → ¬ GVac f u2 →
+        computeSimplex op (⟨liftT b1, XQ.fin u1⟩ : Simplex (XQ f) n) ⟨liftT b2, XQ.fin u2⟩
+          = ⟨liftT F.1, XQ.fin F.2⟩) →
+      computeSimplex op (⟨liftT b1, XQ.fin u1⟩ : Simplex (XQ f) n) ⟨liftT b2, XQ.fin u2⟩
+        = ⟨liftT (if GVac f u1 ∧ GVac f u2 then ((fun _ => 0 : Fin n → ℚ), (1 : ℚ))
+            else if GVac f u1 ∨ GDog f u2 then (b2, u2)
+            else if GVac f u2 ∨ GDog f u1 then (b1, u1) else F).1,
+           XQ.fin (if GVac f u1 ∧ GVac f u2 then ((fun _ => 0 : Fin n → ℚ), (1 : ℚ))
+            else if GVac f u1 ∨ GDog f u2 then (b2, u2)
+            else if GVac f u2 ∨ GDog f u1 then (b1, u1) else F).2⟩ := by
+    intro op hop F hF
+    by_cases hv : GVac f u1 ∧ GVac f u2
+    · rw [if_pos hv]; exact computeSimplex_both_vac hop _ _ hv.1 hv.2
+    rw [if_neg hv]
+    by_cases hr : GVac f u1 ∨ GDog f u2
+    · rw [if_pos hr]; exact computeSimplex_right hop _ _ hd hv hr
+    rw [if_neg hr]
+    by_cases hl : GVac f u2 ∨ GDog f u1
+    · rw [if_pos hl]; exact computeSimplex_left hop _ _ hd hv hr hl
+    rw [if_neg hl]
+    exact hF (fun h => hl (Or.inr h)) (fun h => hr (Or.inr h)) (fun h => hr (Or.inl h))
+      (fun h => hl (Or.inl h))
+  cases op
+  · exact cum .acm (by decide) _ (computeSimplex_acm_formula (Or.inl rfl) h1 h2)
+  · exact cum .ecm (by decide) _ (computeSimplex_acm_formula (Or.inr rfl) h1 h2)
+  · show _ = (⟨liftT (if GDog f u1 then (b1, u1) else if GDog f u2 then (b2, u2)
+        else (avgB b1 u1 b2 u2, avgU u1 u2)).1, XQ.fin (if GDog f u1 then (b1, u1)
+        else if GDog f u2 then (b2, u2) else (avgB b1 u1 b2 u2, avgU u1 u2)).2⟩ : Simplex (XQ f) n)
+    by_cases d1 : GDog f u1
+    · rw [if_pos d1]; exact computeSimplex_avg_left _ _ d1 (fun d2 => hd ⟨d1, d2⟩)
+    rw [if_neg d1]
+    by_cases d2 : GDog f u2
+    · rw [if_pos d2]; exact computeSimplex_avg_right _ _ d1 d2
+    rw [if_neg d2]
+    exact computeSimplex_avg_formula h1 h2 d1 d2
+  · exact cum .wgh (by decide) _ (computeSimplex_wgh_formula h1 h2)
+
+/-! ### closed forms of the base rate -/
+
+namespace FuseQ
+
+/-- arithmetic mean of two tables -/
+def meanA (a1 a2 : Fin n → ℚ) (i : Fin n) : ℚ := (a1 i + a2 i) / 2
+
+/-- ACm / ECm base-rate formula: weights `u2 (1-u1)` and `u1 (1-u2)` -/
+def acmA (a1 : Fin n → ℚ) (u1 : ℚ) (a2 : Fin n → ℚ) (u2 : ℚ) (i : Fin n) : ℚ :=
+  (a1 i * u2 * (1 - u1) + a2 i * u1 * (1 - u2)) / (u2 * (1 - u1) + u1 * (1 - u2))
+
+/-- Wgh base-rate formula: weights `1-u1` and `1-u2` -/
+def wghA (a1 : Fin n → ℚ) (u1 : ℚ) (a2 : Fin n → ℚ) (u2 : ℚ) (i : Fin n) : ℚ :=
+  (a1 i * (1 - u1) + a2 i * (1 - u2)) / ((1 - u1) + (1 - u2))
+
+/-- entry `i` takes the `ulps_eq!` shortcut of `compute_base_rate` (treated as an opaque Boolean) -/
+def sc (f : Fmt) (a1 a2 : Fin n → ℚ) (i : Fin n) : Bool :=
+  XQ.ulpsEq (XQ.fin (a1 i) : XQ f) (XQ.fin (a2 i))
+
+/-- per-entry shortcut: the left entry where `ulps_eq!` holds, the formula `g` elsewhere -/
+def short (f : Fmt) (a1 a2 g : Fin n → ℚ) (i : Fin n) : ℚ := if sc f a1 a2 i then a1 i else g i
+
+/-- the guard ladder of `compute_base_rate` on rational data -/
+def baseRateQ (f : Fmt) (op : FuseOp) (same : Bool) (a1 : Fin n → ℚ) (u1 : ℚ) (a2 : Fin n → ℚ)
+    (u2 : ℚ) : Fin n → ℚ :=
+  if same then a1
+  else if GDog f u1 ∧ GDog f u2 then meanA a1 a2
+  else match op with
+    | .acm | .ecm =>
+      if GVac f u1 ∧ GVac f u2 then short f a1 a2 (meanA a1 a2)
+      else if GVac f u1 ∨ GDog f u2 then a2
+      else if GVac f u2 ∨ GDog f u1 then a1
+      else short f a1 a2 (acmA a1 u1 a2 u2)
+    | .avg => short f a1 a2 (meanA a1 a2)
+    | .wgh =>
+      if GVac f u1 ∧ GVac f u2 then short f a1 a2 (meanA a1 a2)
+      else if GVac f u1 then a2
+      else if GVac f u2 then a1
+      else short f a1 a2 (wghA a1 u1 a2 u2)
+
+end FuseQ
+
+/-- `ulps_eq!` is reflexive on finite values -/
+theorem XQ.ulpsEq_refl (x : ℚ) : XQ.ulpsEq (XQ.fin x : XQ f) (XQ.fin x) = true := by
+  have := XQ.eps_pos f
+  simp [XQ.ulpsEq, XQ.absQ, this.le]
+
+theorem FuseQ.sc_of_eq {a1 a2 : Fin n → ℚ} {i : Fin n} (h : a1 i = a2 i) : sc f a1 a2 i = true := by
+  unfold sc; rw [h]; exact XQ.ulpsEq_refl _
+
+theorem FuseQ.sc_self (a : Fin n → ℚ) (i : Fin n) : sc f a a i = true := sc_of_eq rfl
+
+/-- equal entries are returned unchanged by the shortcut, whatever the formula -/
+theorem FuseQ.short_of_eq {a1 a2 : Fin n → ℚ} (g : Fin n → ℚ) {i : Fin n} (h : a1 i = a2 i) :
+    short f a1 a2 g i = a1 i := by
+  unfold short; rw [sc_of_eq h, if_pos rfl]
+
+theorem brEntry_fin (x y z : ℚ) :
+    brEntry (XQ.fin x : XQ f) (XQ.fin y) (XQ.fin z)
+      = XQ.fin (if XQ.ulpsEq (XQ.fin x : XQ f) (XQ.fin y) then x else z) := by
+  unfold brEntry
+  show (if XQ.ulpsEq (XQ.fin x : XQ f) (XQ.fin y) = true then _ else _) = _
+  split <;> rfl
+
+theorem brEntry_liftT (a1 a2 g : Fin n → ℚ) :
+    (Vector.ofFn fun i : Fin n => brEntry (XQ.fin (a1 i) : XQ f) (XQ.fin (a2 i)) (XQ.fin (g i)))
+      = liftT (short f a1 a2 g) := by
+  apply Vector.ext; intro i hi
+  rw [Vector.getElem_ofFn, liftT_getElem', brEntry_fin]; rfl
+
+/-! ### `compute_base_rate`, arm by arm (`bl`, `br` arbitrary belief tables) -/
+
+/-- shared base-rate object: returned unchanged -/
+theorem computeBaseRate_same (op : FuseOp) (l r : Opinion (XQ f) n) :
+    computeBaseRate op true l r = l.a := by
+  unfold computeBaseRate; simp
+
+/-- both guard-dogmatic (every operator): plain arithmetic mean, no `ulps_eq!` shortcut -/
+theorem computeBaseRate_both_dog (op : FuseOp) (bl br : Tab (XQ f) n) (a1 a2 : Fin n → ℚ) {u1 u2 : ℚ}
+    (d1 : GDog f u1) (d2 : GDog f u2) :
+    computeBaseRate op false (⟨bl, XQ.fin u1, liftT a1⟩ : Opinion (XQ f) n) ⟨br, XQ.fin u2, liftT a2⟩
+      = liftT (meanA a1 a2) := by
+  unfold computeBaseRate
+  simp only [Opinion.isDogmatic_lift, d1, d2, decide_true, Bool.and_self, if_true, Bool.false_eq_true,
+    if_false, liftT_getElem, XQ.add_fin, XQ.two_def, XQ.div_fin _ _ (two_ne_zero)]
+  rfl
+
+/-- the mean arm with shortcut: Avg (not both dogmatic) -/
+theorem computeBaseRate_avg (bl br : Tab (XQ f) n) (a1 a2 : Fin n → ℚ) {u1 u2 : ℚ}
+    (hnd : ¬ (GDog f u1 ∧ GDog f u2)) :
+    computeBaseRate .avg false (⟨bl, XQ.fin u1, liftT a1⟩ : Opinion (XQ f) n) ⟨br, XQ.fin u2, liftT a2⟩
+      = liftT (short f a1 a2 (meanA a1 a2)) := by
+  unfold computeBaseRate
+  simp only [Opinion.isDogmatic_lift, ← Bool.decide_and, hnd, decide_false, Bool.false_eq_true,
+    if_false, liftT_getElem, XQ.add_fin, XQ.two_def, XQ.div_fin _ _ (two_ne_zero)]
+  exact brEntry_liftT a1 a2 (meanA a1 a2)
+
+/-- ACm / ECm / Wgh, both guard-vacuous: mean with shortcut -/
+theorem computeBaseRate_both_vac {op : FuseOp} (hop : op ≠ .avg) (bl br : Tab (XQ f) n)
+    (a1 a2 : Fin n → ℚ) {u1 u2 : ℚ} (v1 : GVac f u1) (v2 : GVac f u2) :
+    computeBaseRate op false (⟨bl, XQ.fin u1, liftT a1⟩ : Opinion (XQ f) n) ⟨br, XQ.fin u2, liftT a2⟩
+      = liftT (short f a1 a2 (meanA a1 a2)) := by
+  have nd1 : ¬ GDog f u1 := fun d => d.not_GVac v1
+  cases op <;> first | exact absurd rfl hop | skip
+  all_goals
+    unfold computeBaseRate
+    simp only [Opinion.isDogmatic_lift, Opinion.isVacuous_lift, nd1, v1, v2, decide_false, decide_true,
+      Bool.false_and, Bool.and_self, Bool.false_eq_true, if_false, if_true,
+      liftT_getElem, XQ.add_fin, XQ.two_def, XQ.div_fin _ _ (two_ne_zero)]
+    exact brEntry_liftT a1 a2 (meanA a1 a2)
+
+/-- ACm / ECm, left guard-vacuous or right guard-dogmatic: the right base rate -/
+theorem computeBaseRate_acm_right {op : FuseOp} (hop : op = .acm ∨ op = .ecm) (bl br : Tab (XQ f) n)
+    (al ar : Tab (XQ f) n) {u1 u2 : ℚ}
+    (hnd : ¬ (GDog f u1 ∧ GDog f u2)) (hnv : ¬ (GVac f u1 ∧ GVac f u2)) (h : GVac f u1 ∨ GDog f u2) :
+    computeBaseRate op false (⟨bl, XQ.fin u1, al⟩ : Opinion (XQ f) n) ⟨br, XQ.fin u2, ar⟩ = ar := by
+  rcases hop with rfl | rfl <;>
+  · unfold computeBaseRate
+    simp only [Opinion.isDogmatic_lift, Opinion.isVacuous_lift, ← Bool.decide_and, ← Bool.decide_or,
+      hnd, hnv, h, decide_false, decide_true, Bool.false_eq_true, if_false, if_true]
+
+/-- ACm / ECm, right guard-vacuous or left guard-dogmatic (previous arms not taken): the left base rate -/
+theorem computeBaseRate_acm_left {op : FuseOp} (hop : op = .acm ∨ op = .ecm) (bl br : Tab (XQ f) n)
+    (al ar : Tab (XQ f) n) {u1 u2 : ℚ}
+    (hnd : ¬ (GDog f u1 ∧ GDog f u2)) (hnv : ¬ (GVac f u1 ∧ GVac f u2))
+    (hnr : ¬ (GVac f u1 ∨ GDog f u2)) (h : GVac f u2 ∨ GDog f u1) :
+    computeBaseRate op false (⟨bl, XQ.fin u1, al⟩ : Opinion (XQ f) n) ⟨br, XQ.fin u2, ar⟩ = al := by
+  rcases hop with rfl | rfl <;>
+  · unfold computeBaseRate
+    simp only [Opinion.isDogmatic_lift, Opinion.isVacuous_lift, ← Bool.decide_and, ← Bool.decide_or,
+      hnd, hnv, hnr, h, decide_false, decide_true, Bool.false_eq_true, if_false, if_true]
+
+/-- ACm / ECm formula arm (neither operand guard-vacuous nor guard-dogmatic), with the shortcut -/
+theorem computeBaseRate_acm_formula {op : FuseOp} (hop : op = .acm ∨ op = .ecm) (bl br : Tab (XQ f) n)
+    (a1 a2 : Fin n → ℚ) {u1 u2 : ℚ} (h10 : 0 ≤ u1) (h11 : u1 ≤ 1) (h20 : 0 ≤ u2) (h21 : u2 ≤ 1)
+    (nd1 : ¬ GDog f u1) (nd2 : ¬ GDog f u2) (nv1 : ¬ GVac f u1) (nv2 : ¬ GVac f u2) :
+    computeBaseRate op false (⟨bl, XQ.fin u1, liftT a1⟩ : Opinion (XQ f) n) ⟨br, XQ.fin u2, liftT a2⟩
+      = liftT (short f a1 a2 (acmA a1 u1 a2 u2)) := by
+  have he := XQ.eps_pos f
+  have p2 := pos_of_not_GDog h20 nd2
+  have l1 := lt_of_not_GVac h11 nv1
+  have ht : u2 * (1 - u1) + u1 * (1 - u2) ≠ 0 :=
+    ne_of_gt (wgh_temp_pos (by linarith) h10 (by linarith) h21)
+  rcases hop with rfl | rfl <;>
+  · unfold computeBaseRate
+    simp only [Opinion.isDogmatic_lift, Opinion.isVacuous_lift, nd1, nd2, nv1, nv2, decide_false,
+      Bool.and_false, Bool.or_false, Bool.false_eq_true, if_false, liftT_getElem, XQ.add_fin,
+      XQ.sub_fin, XQ.one_def, XQ.mul_fin, XQ.div_fin _ _ ht]
+    exact brEntry_liftT a1 a2 (acmA a1 u1 a2 u2)
+
+/-- Wgh, left guard-vacuous (right not): the right base rate -/
+theorem computeBaseRate_wgh_right (bl br : Tab (XQ f) n) (al ar : Tab (XQ f) n) {u1 u2 : ℚ}
+    (hnd : ¬ (GDog f u1 ∧ GDog f u2)) (v1 : GVac f u1) (nv2 : ¬ GVac f u2) :
+    computeBaseRate .wgh false (⟨bl, XQ.fin u1, al⟩ : Opinion (XQ f) n) ⟨br, XQ.fin u2, ar⟩ = ar := by
+  unfold computeBaseRate
+  simp only [Opinion.isDogmatic_lift, Opinion.isVacuous_lift, ← Bool.decide_and,
+    hnd, v1, nv2, Bool.and_false, decide_false, decide_true, Bool.false_eq_true, if_false, if_true]
+
+/-- Wgh, right guard-vacuous (left not): the left base rate -/
+theorem computeBaseRate_wgh_left (bl br : Tab (XQ f) n) (al ar : Tab (XQ f) n) {u1 u2 : ℚ}
+    (hnd : ¬ (GDog f u1 ∧ GDog f u2)) (nv1 : ¬ GVac f u1) (v2 : GVac f u2) :
+    computeBaseRate .wgh false (⟨bl, XQ.fin u1, al⟩ : Opinion (XQ f) n) ⟨br, XQ.fin u2, ar⟩ = al := by
+  unfold computeBaseRate
+  simp only [Opinion.isDogmatic_lift, Opinion.isVacuous_lift, ← Bool.decide_and,
+    hnd, nv1, v2, Bool.false_and, decide_false, decide_true, Bool.false_eq_true, if_false, if_true]
+
+/-- Wgh formula arm (not both guard-dogmatic, neither guard-vacuous; ONE dogmatic operand lands here) -/
+theorem computeBaseRate_wgh_formula (bl br : Tab (XQ f) n)
+    (a1 a2 : Fin n → ℚ) {u1 u2 : ℚ} (h11 : u1 ≤ 1) (h21 : u2 ≤ 1)
+    (hnd : ¬ (GDog f u1 ∧ GDog f u2)) (nv1 : ¬ GVac f u1) (nv2 : ¬ GVac f u2) :
+    computeBaseRate .wgh false (⟨bl, XQ.fin u1, liftT a1⟩ : Opinion (XQ f) n) ⟨br, XQ.fin u2, liftT a2⟩
+      = liftT (short f a1 a2 (wghA a1 u1 a2 u2)) := by
+  have he := XQ.eps_pos f
+  have l1 := lt_of_not_GVac h11 nv1
+  have l2 := lt_of_not_GVac h21 nv2
+  have ht : (1 - u1) + (1 - u2) ≠ 0 := ne_of_gt (by linarith)
+  unfold computeBaseRate
+  simp only [Opinion.isDogmatic_lift, Opinion.isVacuous_lift, ← Bool.decide_and, hnd, nv1, nv2,
+    Bool.and_false, decide_false,
+    Bool.false_eq_true, if_false, liftT_getElem, XQ.add_fin,
+    XQ.sub_fin, XQ.one_def, XQ.mul_fin, XQ.div_fin _ _ ht]
+  exact brEntry_liftT a1 a2 (wghA a1 u1 a2 u2)
+
+/-- `compute_base_rate` on lifted operands with `u1, u2 ∈ [0,1]`, all arms at once: the rational guard
+    ladder `FuseQ.baseRateQ`.  Every entry of the result is finite. -/
+theorem computeBaseRate_lift (op : FuseOp) (same : Bool) (bl br : Tab (XQ f) n) (a1 a2 : Fin n → ℚ)
+    {u1 u2 : ℚ} (h10 : 0 ≤ u1) (h11 : u1 ≤ 1) (h20 : 0 ≤ u2) (h21 : u2 ≤ 1) :
+    computeBaseRate op same (⟨bl, XQ.fin u1, liftT a1⟩ : Opinion (XQ f) n) ⟨br, XQ.fin u2, liftT a2⟩
+      = liftT (baseRateQ f op same a1 u1 a2 u2) := by
+  unfold baseRateQ
+  cases same
+  · simp only [Bool.false_eq_true, if_false]
+    by_cases hd : GDog f u1 ∧ GDog f u2
+    · rw [if_pos hd]; exact computeBaseRate_both_dog op _ _ a1 a2 hd.1 hd.2
+    rw [if_neg hd]
+    have cum : ∀ op : FuseOp, (op = .acm ∨ op = .ecm) →
+        computeBaseRate op false (⟨bl, XQ.fin u1, liftT a1⟩ : Opinion (XQ f) n)
+            ⟨br, XQ.fin u2, liftT a2⟩
+          = liftT (if GVac f u1 ∧ GVac f u2 then short f a1 a2 (meanA a1 a2)
+              else if GVac f u1 ∨ GDog f u2 then a2
+              else if GVac f u2 ∨ GDog f u1 then a1
+              else short f a1 a2 (acmA a1 u1 a2 u2)) := by
+      intro op hop
+      have hop' : op ≠ .avg := by rcases hop with rfl | rfl <;> decide
+      by_cases hv : GVac f u1 ∧ GVac f u2
+      · rw [if_pos hv]; exact computeBaseRate_both_vac hop' _ _ a1 a2 hv.1 hv.2
+      rw [if_neg hv]
+      by_cases hr : GVac f u1 ∨ GDog f u2
+      · rw [if_pos hr]; exact computeBaseRate_acm_right hop _ _ _ _ hd hv hr
+      rw [if_neg hr]
+      by_cases hl : GVac f u2 ∨ GDog f u1
+      · rw [if_pos hl]; exact computeBaseRate_acm_left hop _ _ _ _ hd hv hr hl
+      rw [if_neg hl]
+      exact computeBaseRate_acm_formula hop _ _ a1 a2 h10 h11 h20 h21 (fun h => hl (Or.inr h))
+        (fun h => hr (Or.inr h)) (fun h => hr (Or.inl h)) (fun h => hl (Or.inl h))
+    cases op
+    · exact cum .acm (Or.inl rfl)
+    · exact cum .ecm (Or.inr rfl)
+    · exact computeBaseRate_avg _ _ a1 a2 hd
+    · show _ = liftT (if GVac f u1 ∧ GVac f u2 then short f a1 a2 (meanA a1 a2)
+              else if GVac f u1 then a2 else if GVac f u2 then a1
+              else short f a1 a2 (wghA a1 u1 a2 u2))
+      by_cases hv : GVac f u1 ∧ GVac f u2
+      · rw [if_pos hv]; exact computeBaseRate_both_vac (by decide) _ _ a1 a2 hv.1 hv.2
+      rw [if_neg hv]
+      by_cases v1 : GVac f u1
+      · rw [if_pos v1]; exact computeBaseRate_wgh_right _ _ _ _ hd v1 (fun v2 => hv ⟨v1, v2⟩)
+      rw [if_neg v1]
+      by_cases v2 : GVac f u2
+      · rw [if_pos v2]; exact computeBaseRate_wgh_left _ _ _ _ hd v1 v2
+      rw [if_neg v2]
+      exact computeBaseRate_wgh_formula _ _ a1 a2 h11 h21 hd v1 v2
+  · simp only [if_true]; exact computeBaseRate_same op _ _
 
 end SLV
